@@ -126,6 +126,14 @@ template <class S, class T> void affine_case (const IM& im, const Matrix44<T>& M
         B r4 = prefill<S> (pf); affineTransform (bx, M, r4);
         if (!eq_int (r4, mn, mx)) vf::R ().fail ("affineTransform(box,m,result)", in (prefill_name (pf)), ibox (mn, mx), b3 (r4));
     }
+    // in-place use: `result` is the very object passed as `box` (both parameters are references, nothing forbids it)
+    {
+        B a1 = bx; transform (a1, M, a1);
+        if (!eq_int (a1, mn, mx)) vf::R ().fail ("transform(box,m,result).result-aliases-box", in ("transform(b, m, b)"), ibox (mn, mx), b3 (a1));
+        B a2 = bx; affineTransform (a2, M, a2);
+        if (!eq_int (a2, mn, mx)) vf::R ().fail ("affineTransform(box,m,result).result-aliases-box", in ("affineTransform(b, m, b)"), ibox (mn, mx), b3 (a2));
+        trans += 2;
+    }
     // every lattice point of the box maps inside the returned box (integer arithmetic for the image)
     for (int x = lb.mn[0]; x <= lb.mx[0]; ++x)
         for (int y = lb.mn[1]; y <= lb.mx[1]; ++y)
@@ -284,7 +292,12 @@ template <class S, class T> bool projective_stage (bool)
                                    [&] { return in (prefill_name (pf)); }, want, [&] { return b3 (r2); });
                     }
                 }
-                l_trans += 4;
+                {
+                    B a1 = bx; transform (a1, M, a1); // result aliases box on the projective path
+                    double dummy = 0;
+                    if (!close (a1, dummy)) fail_lazy ("transform(box,m,result).result-aliases-box", [&] { return in ("transform(b, m, b)"); }, want, [&] { return b3 (a1); });
+                }
+                l_trans += 5;
             }
         }
         trans += l_trans; cases += l_cases; skipped += l_skip;
